@@ -25,4 +25,6 @@ for p in $ids; do
   fi
 done
 git -C /repo checkout -- .
+# rebuild on the clean tree: the binaries must never be left built from a patched /repo
+./check build >/dev/null 2>&1
 echo "$name: caught by:${caught:- NONE}"
